@@ -28,8 +28,12 @@ func shortShapes(entry string, K0, K1, K2 int, vers string, fuel int64, cover ..
 	}
 	// offsets inside strings: "$a[" sign, K2+1 arbitrary bytes, then the closing bracket and
 	// quote (the string_var_index state skips bytes it has no rule for)
-	for _, ps := range offsetShapes {
-		add("S2", tmpl(tC(ps[0]), tH('a', 0, K2+1), tC(ps[1])))
+	for i, ps := range offsetShapes {
+		k := K2
+		if i == 0 {
+			k = K2 + 1 // sign, skipped byte, two digits
+		}
+		add("S2", tmpl(tC(ps[0]), tH('a', 0, k), tC(ps[1])))
 	}
 	return out
 }
@@ -68,7 +72,7 @@ func shortBounds(K0, K1, K2 int, vers string) []string {
 	return []string{
 		bound("S0 raw input: every byte string of length 0..%d", K0),
 		bound("S1 \"<?php \" / \"<?\" / \"<?=\" / \"<?php\" followed by every byte string of length 0..%d", K1),
-		bound("S2 %d lexical-mode prefixes followed by every byte string of length 0..%d; %d PHP-mode (numbers, variables, names, brackets, close tag) and %d HTML-mode (shebang line, text before the open tag, close tag) prefixes followed by every byte string of length 0..%d; %d string-offset shapes (\"$a[ / \"$a[- / heredoc $a[-, every byte string of length 0..%d, then ] and the closing quote or label)", len(modePrefixes), K2, len(phpPrefixes), len(rawPrefixes), K1, len(offsetShapes), K2+1),
+		bound("S2 %d lexical-mode prefixes followed by every byte string of length 0..%d; %d PHP-mode (numbers, variables, names, brackets, close tag) and %d HTML-mode (shebang line, text before the open tag, close tag) prefixes followed by every byte string of length 0..%d; %d string-offset shapes (\"$a[ / \"$a[- / heredoc $a[-, every byte string of length 0..%d (the first shape) / 0..%d, then ] and the closing quote or label)", len(modePrefixes), K2, len(phpPrefixes), len(rawPrefixes), K1, len(offsetShapes), K2+1, K2),
 		"versions " + vers + " (one representative per behaviour class; class equivalence is C09's claim)",
 	}
 }
